@@ -117,6 +117,31 @@ def _env():
             y = self.pool(y).flatten(1)
             return self.fc2(torch.relu(self.fc1(y)))
 
+    class PitReuse(nn.Module):
+        """Weight sharing: `blk` is applied twice and its LAST application is the network output, so its output
+        features are tied to the output whatever call site the conversion meets first."""
+        shape = (3, 8)
+
+        def __init__(self):
+            super().__init__()
+            self.c0 = nn.Conv1d(3, 4, 3, padding='same')
+            self.blk = nn.Conv1d(4, 4, 3, padding='same')
+
+        def forward(self, x):
+            y = torch.relu(self.c0(x))
+            y = torch.relu(self.blk(y))
+            return self.blk(y)
+
+    # masks that the METHOD must freeze by construction, stated from the architecture of the seed networks above
+    # (independent of the masker class the conversion chose): widths tied to the network input / output, receptive
+    # field and dilation of strided convolutions
+    MUST_FREEZE = {
+        "tcn": {"alpha": ["seed.cin", "seed.fc"], "beta": ["seed.c2"], "gamma": ["seed.c2"]},
+        "tcn_foldbn": {"alpha": ["seed.cin", "seed.fc"], "beta": ["seed.c2"], "gamma": ["seed.c2"]},
+        "cnn2d": {"alpha": ["seed.fc2"]},
+        "reuse": {"alpha": ["seed.blk"]},
+    }
+
     class MpsCnn(nn.Module):
         shape = (3, 4, 4)
 
@@ -181,11 +206,14 @@ def _env():
                 net, shape = PitCnn2d(), PitCnn2d.shape
             elif variant == "tcn_foldbn":
                 net, shape = PitTcn(), PitTcn.shape
+            elif variant == "reuse":
+                net, shape = PitReuse(), PitReuse.shape
             else:
                 net, shape = repo_model(variant)
             m = PIT(net, input_shape=shape, train_features=init["features"], train_rf=init["rf"],
                     train_dilation=init["dilation"], discrete_cost=init["dc"],
                     fold_bn=(variant == "tcn_foldbn"))
+            m._verif_must = MUST_FREEZE.get(variant, {})
         elif kind == "mps":
             if variant in ("layer", "channel", "channel0"):
                 net, shape = MpsCnn(), MpsCnn.shape
@@ -299,16 +327,22 @@ def _env():
                         mk = getattr(l, a, None)
                         if mk is not None:
                             owners.setdefault(id(mk), []).append(i + 1)
+                must_d = getattr(m, "_verif_must", {}) or {}
+
+                def must(kind_, own_):     # frozen by construction according to the architecture (not to the code)
+                    return any(self.layers[i - 1][0] in must_d.get(kind_, ()) for i in own_)
                 for _, l in mods:
                     own = owners.get(id(l), [])
                     if isinstance(l, PITFeaturesMasker):
-                        cls = "alphaF" if isinstance(l, PITFrozenFeaturesMasker) else \
+                        cls = "alphaF" if (isinstance(l, PITFrozenFeaturesMasker) or must("alpha", own)) else \
                             ("alphaS" if len(own) > 1 else "alpha")
                         add(l, "alpha", cls, own)
                     elif isinstance(l, PITTimestepMasker):
-                        add(l, "beta", "betaF" if isinstance(l, PITFrozenTimestepMasker) else "beta", own)
+                        add(l, "beta", "betaF" if (isinstance(l, PITFrozenTimestepMasker) or must("beta", own))
+                            else "beta", own)
                     elif isinstance(l, PITDilationMasker):
-                        add(l, "gamma", "gammaF" if isinstance(l, PITFrozenDilationMasker) else "gamma", own)
+                        add(l, "gamma", "gammaF" if (isinstance(l, PITFrozenDilationMasker) or must("gamma", own))
+                            else "gamma", own)
                 # the discrete_cost switch of every layer is an object of its own (class "dc")
                 for i, (_, l) in enumerate(self.layers):
                     if hasattr(l, "discrete_cost"):
@@ -942,7 +976,7 @@ def run(tier: str, seed: int, replay=None) -> int:
         #    mixed, a copy of the model somewhere) and the pairwise heterogeneity probes
         n_rand = 32 if tier == "quick" else 700
         rl = 14 if tier == "quick" else 30
-        rvars = {"pit": ["tcn", "cnn2d"], "mps": ["layer", "channel", "channel0"], "sn": ["std"]}
+        rvars = {"pit": ["tcn", "cnn2d", "reuse"], "mps": ["layer", "channel", "channel0"], "sn": ["std"]}
         if tier != "quick":
             rvars["pit"] += ["tcn_foldbn", "tcresnet14"]
             rvars["mps"] += ["simplenn2d:channel"]
